@@ -1588,6 +1588,76 @@ class Runner:
             self.c14_keys.add("inv:" + hashlib.sha1(body).hexdigest())
         return {coll}
 
+
+    # -- C02: a read that overlaps a write (the harness owns the interleaving) ----------
+    def op_RACE(self, st):
+        """GET (or multiget) of a member through the aiohttp front end; at the moment the handler
+        suspends to read the body (to_thread in ObjectResource.get_file) a complete PUT of the same
+        member is executed through the WSGI front end; then the read resumes.  The (ETag, body) pair
+        the reader receives must be a consistent snapshot: old/old or new/new."""
+        import asyncio
+
+        from xandikos import web
+
+        coll = SLOTS[st["coll"]]
+        name = st["name"]
+        mc = self.model.colls.get(coll)
+        self.last = {"op": "RACE", "ack": False, "coll": coll, "name": name}
+        if mc is None or name not in mc.members:
+            return set()
+        body = body_of(st)
+        path = self.member_path(coll, name)
+        real = web.to_thread
+        state = {"armed": True, "put": None}
+        runner = self
+
+        async def wrapper(func, *a, **kw):
+            if state["armed"] and getattr(func, "__name__", "") == "get_file":
+                state["armed"] = False
+                state["put"] = await asyncio.to_thread(lambda: runner.req("wsgi", "PUT", path, [("Content-Type", st["ctype"])], body))
+            return await real(func, *a, **kw)
+
+        web.to_thread = wrapper
+        try:
+            if st.get("reader") == "multiget" and mc.kind in ("calendar", "addressbook"):
+                ans = self.mg_request("aio", coll, mc.kind, [self.world.url(path)])
+                a = (ans.get(urllib.parse.unquote(self.world.url(path))) or [None])[0]
+                got_etag = a["etag"] if a else None
+                got_body = a["data"].encode("utf-8").replace(b"\r\n", b"\n") if a and a["data"] is not None else None
+                norm = True
+            else:
+                r = self.req("aio", "GET", path, None, None)
+                got_etag, got_body, norm = r.header("ETag"), r.body, False
+        finally:
+            web.to_thread = real
+        pr = state["put"]
+        if pr is None:
+            self.stats["race:not-triggered"] += 1
+            return {coll}
+        self.stats["race:triggered"] += 1
+        if dav.acknowledged(pr):
+            old = mc.members[name]
+            mc.members[name] = MMember(body, st["ctype"], old.ver + 1)
+            self.coll_writes[coll] += 1
+            self.last["ack"] = True
+            self.stats["ack:PUT"] += 1
+            self.stats["ack:overwrite"] += 1
+            new_etag = pr.header("ETag")
+            g = self.req("wsgi", "GET", path, None, None)
+            new_body = g.body
+            old_etag = self.cur_etag.get((coll, name))
+            if got_etag is not None and got_body is not None and old_etag != new_etag:
+                cmp_new = new_body.replace(b"\r\n", b"\n") if norm else new_body
+                if got_etag == old_etag and got_body == cmp_new and cmp_new != (b"" if norm else b""):
+                    # the old ETag was served with the new bytes
+                    prev = self.seen_etag_body[coll + "/" + name].get(old_etag)
+                    if prev is None or prev != hashlib.sha1(new_body).hexdigest():
+                        self.violation("etag-strong", "race:old-etag-with-new-body", f"{st.get('reader', 'get')} of {coll}/{name} overlapped by a PUT: answered ETag {got_etag} (the old one) with the new body")
+                if got_etag == new_etag and got_body != cmp_new:
+                    self.violation("etag-strong", "race:new-etag-with-old-body", f"{st.get('reader', 'get')} of {coll}/{name} overlapped by a PUT: answered the new ETag {got_etag} with a body that is not the new one")
+            self.stats["race:checked"] += 1
+        return {coll}
+
     # -- the content audit (C01 oracle) ---------------------------------------
     LIST_PROPS = [P_ETAG, P_RT]
 
